@@ -6,7 +6,9 @@ package register
 // code). Comment-only: no code; visible only with the build tag "verif".
 //
 //@ func (*Register).Post
-//@   property C01 C19 C18 C17
+//@   property C01 C09 C19 C18 C17
+//@   -- C09: the login that follows a registration is announced with the after-register event
+//@   ensures[C09] login_announced: each Sess.Put("uid", _) => before Fire("After", EventRegister, _, _, _)
 //@   ensures[C17] no_secret_leak: secrets_clean
 //@   invariant loop#1 preserve_only: true
 //@   -- C19: nothing is created when validation fails
